@@ -93,6 +93,11 @@ fn main() {
             let c = checks.iter().find(|c| c.id() == args[2]).expect("property");
             runner::run_unit_verbose(*c, Tier::parse(&args[3]).unwrap(), args[4].parse().unwrap());
         }
+        Some("tsan-bodies") => {
+            // free-running bodies for the thread-sanitizer pass (tools/tsan_pass.sh)
+            let rounds = args.get(2).and_then(|s| s.parse().ok()).unwrap_or(20);
+            std::process::exit(c09::tsan_bodies(rounds));
+        }
         Some("replay") => {
             let Some(path) = args.get(2) else { usage() };
             std::process::exit(runner::replay_file(&checks, path));
